@@ -116,6 +116,10 @@ func (t *PageTree) Count() (int, error) {
 		return 0, fmt.Errorf("invalid /Count type: %T", countObj)
 	}
 
+	if count < 0 {
+		return 0, fmt.Errorf("invalid /Count value: %d", int64(count))
+	}
+
 	return int(count), nil
 }
 
